@@ -162,6 +162,13 @@ def fallback_search(p, why, n=1500):
                 if v:
                     v["history"] = [f"{len(c)} octets: {c[:12]}..." if len(c) > 40 else c for c in v["history"]][:4] + ["..."]
                     return {"violated": True, "detail": v, "found_by": "bounded API-level search"}
+        # over-long frames need more than 2047 octets after a complete-looking header
+        for chunks in ([b"\x7e\xa0\x0a\x03\x03\x13\xaa\xbb" + b"\x55" * 2100, b"\x55\x7e\xa0\x07\x03\x03\x13" + bytes([sp.fcs16(b"\xa0\x07\x03\x03\x13") & 0xFF, sp.fcs16(b"\xa0\x07\x03\x03\x13") >> 8]) + b"\x7e"],
+                       [b"\x7e\xa0\x0a\x03\x03\x13\xaa\xbb" + b"\x7d\x5e" * 2100 + b"\x7e"]):
+            v = history_check(cfg, chunks, key)
+            if v:
+                v["history"] = [(f"{len(c)//2} octets: {c[:24]}..." if len(c) > 80 else c) for c in v["history"]]
+                return {"violated": True, "detail": v, "found_by": "bounded API-level search"}
         for chunks in gen_histories(rnd, n):
             v = history_check(cfg, chunks, key)
             if v: return {"violated": True, "detail": v, "found_by": "bounded API-level search"}
